@@ -180,10 +180,13 @@ struct RunOpts {
     umbilical: Vec<(u64, String)>,   // (poll index, command) to be pending at that poll
     attach:   bool,
     limit:    usize,
+    cont:     bool,                  // keep evaluating the following forms after a signal / abort
+    delayed:  Vec<(u64, String)>,    // (milliseconds, command): sent by a helper thread after the delay
+    stdin_pipe: bool,                // standard input is an IoReceiver nobody writes to (GUI situation)
 }
 
 fn parse_opts(s: &str) -> RunOpts {
-    let mut o = RunOpts{ prelude: true, repl: false, debugger: false, gc: GcMode::Natural, monitor: false, stdin: None, umbilical: vec![], attach: false, limit: 4000 };
+    let mut o = RunOpts{ prelude: true, repl: false, debugger: false, gc: GcMode::Natural, monitor: false, stdin: None, umbilical: vec![], attach: false, limit: 4000, cont: false, delayed: vec![], stdin_pipe: false };
     if s == "-" {
         return o;
     }
@@ -205,6 +208,15 @@ fn parse_opts(s: &str) -> RunOpts {
             "mon"    => o.monitor = v == "1",
             "limit"  => o.limit = v.parse().unwrap(),
             "attach" => o.attach = v == "1",
+            "cont"   => o.cont = v == "1",
+            "stdinpipe" => o.stdin_pipe = v == "1",
+            "delay"  => {
+                for item in v.split(';') {
+                    if let Some((k, c)) = item.split_once(':') {
+                        o.delayed.push((k.parse().unwrap(), c.to_string()));
+                    }
+                }
+            },
             "stdin"  => {
                 o.stdin = Some(if v.is_empty() {vec![]} else {v.split('/').map(|c| dec_bytes(c)).collect()});
             },
@@ -254,11 +266,25 @@ fn run_case(opts: &str, text: &str) -> String {
     else {
         mem.set_stdin(Box::new(ScriptedStdin{ chunks: Default::default(), reads: reads.clone() }));
     }
+    if o.stdin_pipe {
+        let (tx, rx) = crate::io::make_io(std::time::Duration::from_millis(20));
+        std::mem::forget(tx);   // keep the channel open: reads time out instead of disconnecting
+        mem.set_stdin(Box::new(rx));
+    }
     let mut high = None;
-    if o.attach || !o.umbilical.is_empty() {
+    if o.attach || !o.umbilical.is_empty() || !o.delayed.is_empty() {
         let (h, l) = crate::debug::make_umbilical();
         mem.attach_umbilical(l);
         crate::native::eval::verif_set_injections(o.umbilical.clone(), h.to_low_end.clone());
+        for (ms, command) in o.delayed.iter() {
+            let (ms, command, ch) = (*ms, command.clone(), h.to_low_end.clone());
+            std::thread::spawn(move || {
+                std::thread::sleep(std::time::Duration::from_millis(ms));
+                let mut dm = crate::debug::DebugMessage::new();
+                dm.insert("command".to_string(), command);
+                let _ = ch.send(dm);
+            });
+        }
         high = Some(h);
     }
     else {
@@ -299,7 +325,9 @@ fn run_case(opts: &str, text: &str) -> String {
                 else {
                     results.push(format!("sig {}", dumper.dump(&s, o.limit)));
                 }
-                break;
+                if !o.cont {
+                    break;
+                }
             },
         }
     }
